@@ -9,7 +9,7 @@ Two admissibility side conditions are ASSUMED, not proved (see DESIGN.md C01): m
 admissible for the antecedent) and instantiate (admissible for every plug, also for plugs a vacuous pending substitution drops)."""
 from .common import *  # noqa
 from . import c05
-from vc.speclemmas import LIB
+from vc.speclemmas import LIB, checker_side_lib
 from vc.rsfe import RsProgram
 from vc.reflect import reflect_rs_bool_methods, rs_judgement_contracts
 from vc.rscontract import verify_rs_unit
@@ -25,7 +25,7 @@ def build(repo, tier):
     cs, hof, preds = inst_contracts(rsf)
     cs.update(rs_judgement_contracts(rsf))
     cs['read_u8_vec'] = ReadVecContract()
-    lib = dict(LIB)
+    lib = checker_side_lib()
     lib.update(sem.TRUSTED)
     lib.update(sem.GLUE)
     for l in judgement_lemmas(rsf) + equivalence_lemmas(rsf, preds):
